@@ -1637,6 +1637,12 @@ func (bc *Blockchain) removeOldHeaderHashes(index uint32) time.Duration {
 		start   = time.Now()
 		till    = ((int32(index)+1)/headerBatchCount - 1) * headerBatchCount
 	)
+	// The most recent complete page is what HeaderHashes.init() reads on restart
+	// (and what HeaderHashes keeps in `previous`), never collect it.
+	bc.HeaderHashes.lock.RLock()
+	keep := int32(bc.HeaderHashes.storedHeaderCount) - 2*headerBatchCount
+	bc.HeaderHashes.lock.RUnlock()
+	till = min(till, keep)
 	if till > 0 {
 		err = bc.store.SeekGC(storage.SeekRange{
 			Prefix: []byte{byte(storage.IXHeaderHashList)},
